@@ -475,6 +475,16 @@ class IoSim(Engine):
 
                     def getter():
                         return bytes(sf.data).decode('latin-1')
+                elif kind == 'stringio_used':
+                    # an open text stream the caller has already written to
+                    sink = io.StringIO()
+                    sink.write('# header written by the caller\n')
+                    getter = sink.getvalue
+                elif kind == 'stringio_twice':
+                    # the same stream receives two dumps in a row
+                    sink = io.StringIO()
+                    fd(obj, sink, **opt)
+                    getter = sink.getvalue
                 elif kind == 'duck_console':
                     sink = simio.DuckSinkConsole(st_, fail_at)
                     getter = sink.content
@@ -517,7 +527,8 @@ class IoSim(Engine):
                     if ref['status'] == 'ok':
                         if out['status'] != 'ok':
                             bad = ('dump-raised', 'dump raised {} although dumps returned'.format(out['exc']))
-                        elif out['content'] != T:
+                        elif out['content'] != {'stringio_used': '# header written by the caller\n' + T,
+                                                'stringio_twice': T + T}.get(kind, T):
                             bad = ('content', 'sink content differs from the text dumps returned')
                     else:
                         if out['status'] == 'ok':
@@ -553,7 +564,10 @@ class IoSim(Engine):
                              'value': plan['value']}))
 
             # fault-free configuration
-            kinds = ['strpath', 'path', 'stringio', 'duck', 'duck_flush', 'realfile', 'duck_console']
+            kinds = ['strpath', 'path', 'stringio', 'duck', 'duck_flush', 'realfile', 'duck_console',
+                     'stringio_used']
+            if T is not None:
+                kinds.append('stringio_twice')
             latin1_ok = False
             if T is not None:
                 try:
